@@ -24,6 +24,9 @@ type Universe struct {
 	MsgHashes   map[string]bool // hex of the 32-byte message hash
 	MaxHeight   uint64
 	ObsFrom     uint64 // identifiers of blocks below ObsFrom are not recorded
+	// LightLastUpdated: ContractStorageLastUpdatedBlock only for two addresses x two slots (every call of
+	// the legacy backend copies the whole memory database: long chains only)
+	LightLastUpdated bool
 	HashNum     map[felt.Felt]uint64
 }
 
@@ -113,6 +116,9 @@ func observeState(o Obs, tag string, st core.StateReader, u *Universe, version s
 		for j := range u.Slots {
 			k := &u.Slots[j]
 			o.put(fmt.Sprintf("%s.ContractStorage(%s,%s)", tag, a, k), res(st.ContractStorage(a, k)))
+			if u.LightLastUpdated && (i%4 != 2 || j%3 != 2) {
+				continue
+			}
 			o.put(fmt.Sprintf("%s.ContractStorageLastUpdatedBlock(%s,%s)", tag, a, k),
 				res(st.ContractStorageLastUpdatedBlock((*felt.Address)(a), k)))
 		}
